@@ -124,6 +124,7 @@ fn vlan_dec(x: &[u8]) -> Vec<(&'static str, Result<Vec<u64>, String>)> {
     let mut out = vec![];
     out.push(("SingleVlanHeader::from_bytes", Ok(vlan_fields(&SingleVlanHeader::from_bytes([x[0], x[1], x[2], x[3]])))));
     out.push(("SingleVlanHeader::from_slice", SingleVlanHeader::from_slice(x).map(|(h, _)| vlan_fields(&h)).map_err(|e| format!("{:?}", e))));
+    out.push(("SingleVlanHeader::read", SingleVlanHeader::read(&mut std::io::Cursor::new(x)).map(|h| vlan_fields(&h)).map_err(|e| format!("{:?}", e))));
     out.push((
         "SingleVlanHeaderSlice",
         SingleVlanHeaderSlice::from_slice(x)
@@ -177,6 +178,7 @@ fn ipv4_fields(h: &Ipv4Header) -> Vec<u64> {
 fn ipv4_dec(x: &[u8]) -> Vec<(&'static str, Result<Vec<u64>, String>)> {
     vec![
         ("Ipv4Header::from_slice", Ipv4Header::from_slice(x).map(|(h, _)| ipv4_fields(&h)).map_err(|e| format!("{:?}", e))),
+        ("Ipv4Header::read", Ipv4Header::read(&mut std::io::Cursor::new(x)).map(|h| ipv4_fields(&h)).map_err(|e| format!("{:?}", e))),
         (
             "Ipv4HeaderSlice",
             Ipv4HeaderSlice::from_slice(x)
@@ -223,6 +225,15 @@ fn ipv6_enc(f: &[u64]) -> Vec<u8> {
 fn ipv6_dec(x: &[u8]) -> Vec<(&'static str, Result<Vec<u64>, String>)> {
     vec![
         (
+            "Ipv6Header::read",
+            Ipv6Header::read(&mut std::io::Cursor::new(x))
+                .map(|h| {
+                    let a = |x: &[u8]| u64::from_be_bytes(x.try_into().unwrap());
+                    vec![h.traffic_class as u64, h.flow_label.value() as u64, h.payload_length as u64, h.next_header.0 as u64, h.hop_limit as u64, a(&h.source[..8]), a(&h.source[8..]), a(&h.destination[..8]), a(&h.destination[8..])]
+                })
+                .map_err(|e| format!("{:?}", e)),
+        ),
+        (
             "Ipv6Header::from_slice",
             Ipv6Header::from_slice(x)
                 .map(|(h, _)| {
@@ -252,6 +263,12 @@ fn frag_enc(f: &[u64]) -> Vec<u8> {
 }
 fn frag_dec(x: &[u8]) -> Vec<(&'static str, Result<Vec<u64>, String>)> {
     vec![
+        (
+            "Ipv6FragmentHeader::read",
+            Ipv6FragmentHeader::read(&mut std::io::Cursor::new(x))
+                .map(|h| vec![h.next_header.0 as u64, h.fragment_offset.value() as u64, h.more_fragments as u64, h.identification as u64])
+                .map_err(|e| format!("{:?}", e)),
+        ),
         (
             "Ipv6FragmentHeader::from_slice",
             Ipv6FragmentHeader::from_slice(x)
@@ -303,6 +320,7 @@ fn macsec_dec(x: &[u8]) -> Vec<(&'static str, Result<Vec<u64>, String>)> {
     };
     vec![
         ("MacsecHeader::from_slice", MacsecHeader::from_slice(x).map(conv).map_err(|e| format!("{:?}", e))),
+        ("MacsecHeader::read", MacsecHeader::read(&mut std::io::Cursor::new(x)).map(conv).map_err(|e| format!("{:?}", e))),
         (
             "MacsecHeaderSlice",
             MacsecHeaderSlice::from_slice(x)
@@ -461,7 +479,7 @@ impl Check for C15 {
         format!(
             "alphabet: (a) the complete input domain of try_new and TryFrom of VlanId, IpFragOffset (2^16), VlanPcp, IpDscp, IpEcn, MacsecAn, MacsecShortLen, Qrv (2^8), Ipv6FlowLabel ({}), plus every other safe way to obtain such a value (MacsecShortLen::from_len over 0..=70000 and 2^k±1 up to usize::MAX, the named constants, Default) and the conversions out of the types; \
              (b) encode: for SingleVlanHeader, Ipv4Header, Ipv6Header, Ipv6FragmentHeader, MacsecHeader and the IGMPv3 query byte-8 setters every value of every field of <= {} bits (boundary patterns 2^k, 2^k-1, ~2^k above) x 4 backgrounds (all other fields min / max / alternating); \
-             (c) decode: every value of the 1-3 bytes holding each bit field x backgrounds 0x00/0xff through every decoder of the header (struct from_slice/from_bytes and *Slice accessors). \
+             (c) decode: every value of the 1-3 bytes holding each bit field x backgrounds 0x00/0xff through every decoder of the header (struct from_slice / from_bytes / read(io::Read) and *Slice accessors). \
              oracle: Ok(v) with v.value()==x iff x < 2^bits else Err{{actual:x,max_allowed:2^bits-1}}; encoded bytes == reference bit placement from the RFC diagram (so the XOR against the baseline is confined to the field's mask); decoded values == reference bit extraction and <= max. \
              a state = one (api, value) or (header, field, value, background) tuple; all are distinct by construction; non-trivial = value != 0 (the field actually carries bits).",
             if tier.is_thorough() { "all 2^32 values" } else { "all values < 2^21 plus 2^k, 2^k±1 for every k<32" },
